@@ -1,0 +1,18 @@
+//go:build verif && verif_penalty
+
+package qr
+
+// Hook for the /verif proof development (add-only, compiled only with -tags "verif verif_penalty").
+// Kept apart from verif_export.go so that the other hooks do not depend on the penalty functions.
+
+// VerifPenalties builds a symbol from the square matrix rows ([y][x], rows[y][x] is what
+// Get(x, y) returns) and reports calcPenaltyRule1..4 of it.
+func VerifPenalties(rows [][]bool) [4]uint {
+	q := newBarcode(len(rows))
+	for y, r := range rows {
+		for x, v := range r {
+			q.Set(x, y, v)
+		}
+	}
+	return [4]uint{q.calcPenaltyRule1(), q.calcPenaltyRule2(), q.calcPenaltyRule3(), q.calcPenaltyRule4()}
+}
